@@ -58,32 +58,34 @@ type c09Obs struct {
 }
 
 type c09Case struct {
-	Name        string   `json:"name"`
-	Conn        string   `json:"conn"` // accept | refuse | stall | accept-close | noread
-	Acts        []c09Act `json:"acts"`
-	Callers     int      `json:"callers"`
-	Calls       int      `json:"calls"` // per caller, sequential
-	TimeoutMs   int      `json:"timeout_ms"`
-	CtxMs       int      `json:"ctx_ms"`      // > 0: the caller's context carries this deadline
-	PerCallMs   int      `json:"per_call_ms"` // > 0: current.SetClientTimeout
-	DialMs      int      `json:"dial_ms"`
-	WriteMs     int      `json:"write_ms"`
-	ReadMs      int      `json:"read_ms"`
-	QueueLen    int      `json:"queue_len"`
-	ReqSize     int      `json:"req_size"`
-	Filter      string   `json:"filter"` // prepost | cf
-	GapMs       int      `json:"gap_ms"`
-	HandshakeMs int      `json:"handshake_ms"` // tls-slow: delay of the peer's side of the TLS handshake
-	IdleMs      int      `json:"idle_ms"`      // > 0: the client's idle timeout (the sender goroutine checks it once per second)
-	Gaps        []int    `json:"gaps"`         // pause after the j-th call of a caller (overrides gap_ms; the last one repeats)
-	OneWay      bool     `json:"one_way"`      // one-way calls (no reply expected; monitors only)
-	Procs       int      `json:"procs"`        // > 0: GOMAXPROCS of the scenario process
-	ObjMax      int      `json:"obj_max"`      // > 0: ObjQueueMax (calls allowed inside doInvoke)
-	EarlyMs     int      `json:"early_ms"`     // noread-early: when the peer writes its unsolicited replies
-	Prime       bool     `json:"prime"`        // one call (answered at once) establishes the connection before the callers start
-	Warm        bool     `json:"warm"`         // the adapter proxy exists before the first call (concurrent first callers share it)
-	Predict     bool     `json:"predict"`      // outcome classes and times are determined by the script (sent to the model's canonical run)
-	Obs         *c09Obs  `json:"obs,omitempty"`
+	Name          string   `json:"name"`
+	Conn          string   `json:"conn"` // accept | refuse | stall | accept-close | noread
+	Acts          []c09Act `json:"acts"`
+	Callers       int      `json:"callers"`
+	Calls         int      `json:"calls"` // per caller, sequential
+	TimeoutMs     int      `json:"timeout_ms"`
+	CtxMs         int      `json:"ctx_ms"`      // > 0: the caller's context carries this deadline
+	PerCallMs     int      `json:"per_call_ms"` // > 0: current.SetClientTimeout
+	DialMs        int      `json:"dial_ms"`
+	WriteMs       int      `json:"write_ms"`
+	ReadMs        int      `json:"read_ms"`
+	QueueLen      int      `json:"queue_len"`
+	ReqSize       int      `json:"req_size"`
+	Filter        string   `json:"filter"` // prepost | cf
+	GapMs         int      `json:"gap_ms"`
+	FilterSleepMs int      `json:"filter_sleep_ms"` // the client filter sleeps this long before the call is invoked
+	ReadNs        int      `json:"read_ns"`         // with read_ms = 0: the read timeout in nanoseconds (0 = none)
+	HandshakeMs   int      `json:"handshake_ms"`    // tls-slow: delay of the peer's side of the TLS handshake
+	IdleMs        int      `json:"idle_ms"`         // > 0: the client's idle timeout (the sender goroutine checks it once per second)
+	Gaps          []int    `json:"gaps"`            // pause after the j-th call of a caller (overrides gap_ms; the last one repeats)
+	OneWay        bool     `json:"one_way"`         // one-way calls (no reply expected; monitors only)
+	Procs         int      `json:"procs"`           // > 0: GOMAXPROCS of the scenario process
+	ObjMax        int      `json:"obj_max"`         // > 0: ObjQueueMax (calls allowed inside doInvoke)
+	EarlyMs       int      `json:"early_ms"`        // noread-early: when the peer writes its unsolicited replies
+	Prime         bool     `json:"prime"`           // one call (answered at once) establishes the connection before the callers start
+	Warm          bool     `json:"warm"`            // the adapter proxy exists before the first call (concurrent first callers share it)
+	Predict       bool     `json:"predict"`         // outcome classes and times are determined by the script (sent to the model's canonical run)
+	Obs           *c09Obs  `json:"obs,omitempty"`
 }
 
 func (c *c09Case) gap(j int) int {
@@ -167,6 +169,9 @@ func c09RunScenario(c *c09Case) *c09Obs {
 	comm.Client.ClientDialTimeout = time.Duration(c.DialMs) * time.Millisecond
 	comm.Client.ClientWriteTimeout = time.Duration(c.WriteMs) * time.Millisecond
 	comm.Client.ClientReadTimeout = time.Duration(c.ReadMs) * time.Millisecond
+	if c.ReadNs >= 0 && c.ReadMs == 0 {
+		comm.Client.ClientReadTimeout = time.Duration(c.ReadNs) // tiny read timeouts, 0 = no read deadline
+	}
 	comm.Client.ClientQueueLen = c.QueueLen
 	if c.IdleMs > 0 {
 		comm.Client.ClientIdleTimeout = time.Duration(c.IdleMs) * time.Millisecond
@@ -246,9 +251,25 @@ func c09RunScenario(c *c09Case) *c09Obs {
 		log.add(c09Event{Kind: "post", Call: call, ID: msg.Req.IRequestId, Q: q, N: n, P: len(p)})
 		checkSeq("after doInvoke", call, q, n, p, 1)
 	}
-	if c.Filter == "cf" {
+	nap := func() {
+		if c.FilterSleepMs > 0 { // a client filter that takes its time before the call is invoked
+			time.Sleep(time.Duration(c.FilterSleepMs) * time.Millisecond)
+		}
+	}
+	if c.Filter == "mw" {
+		tars.UseClientFilterMiddleware(func(next tars.ClientFilter) tars.ClientFilter {
+			return func(ctx context.Context, msg *tars.Message, invoke tars.Invoke, timeout time.Duration) error {
+				pre(ctx, msg)
+				nap()
+				err := next(ctx, msg, invoke, timeout)
+				post(ctx, msg, err)
+				return err
+			}
+		})
+	} else if c.Filter == "cf" {
 		tars.RegisterClientFilter(func(ctx context.Context, msg *tars.Message, invoke tars.Invoke, timeout time.Duration) error {
 			pre(ctx, msg)
+			nap()
 			err := invoke(ctx, msg, timeout)
 			post(ctx, msg, err)
 			return err
@@ -256,6 +277,7 @@ func c09RunScenario(c *c09Case) *c09Obs {
 	} else {
 		tars.RegisterPreClientFilter(func(ctx context.Context, msg *tars.Message, invoke tars.Invoke, timeout time.Duration) error {
 			pre(ctx, msg)
+			nap()
 			return nil
 		})
 		tars.RegisterPostClientFilter(func(ctx context.Context, msg *tars.Message, invoke tars.Invoke, timeout time.Duration) error {
@@ -795,10 +817,10 @@ func c09Gen(tier string, rng *rand.Rand) []c09Case {
 	base := func(name, conn string, acts []c09Act) c09Case {
 		if tier == "thorough" && rng.Intn(2) == 0 {
 			return c09Case{Name: name, Conn: conn, Acts: acts, Callers: 1, Calls: 1, TimeoutMs: 160 + 10*rng.Intn(25), DialMs: 250 + 10*rng.Intn(20),
-				WriteMs: 400 + 20*rng.Intn(10), ReadMs: 40 + 10*rng.Intn(10), QueueLen: pick(2, 4, 16, 100, 1000), Filter: []string{"prepost", "cf"}[rng.Intn(2)], Predict: true, Warm: true}
+				WriteMs: 400 + 20*rng.Intn(10), ReadMs: 40 + 10*rng.Intn(10), QueueLen: pick(2, 4, 16, 100, 1000), Filter: []string{"prepost", "cf", "mw"}[rng.Intn(3)], Predict: true, Warm: true}
 		}
 		return c09Case{Name: name, Conn: conn, Acts: acts, Callers: 1, Calls: 1, TimeoutMs: pick(200, 250, 300), DialMs: pick(300, 400),
-			WriteMs: pick(400, 500), ReadMs: pick(50, 100), QueueLen: pick(4, 100, 1000), Filter: []string{"prepost", "cf"}[rng.Intn(2)], Predict: true, Warm: true}
+			WriteMs: pick(400, 500), ReadMs: pick(50, 100), QueueLen: pick(4, 100, 1000), Filter: []string{"prepost", "cf", "mw"}[rng.Intn(3)], Predict: true, Warm: true}
 	}
 	rep := func(d int) []c09Act { return []c09Act{{Do: "reply", DelayMs: d}} }
 	// concurrent callers on an established connection: one call alone first (answered at once), then the callers
@@ -1049,6 +1071,54 @@ func c09Gen(tier string, rng *rand.Rand) []c09Case {
 		c.IdleMs = pick(400, 1000)
 		c.Calls = 3
 		c.Gaps = []int{c.IdleMs + 1150, 50}
+		cs = append(cs, c)
+		// ---- a client filter (every registration style) spends part of the call's time before invoking: the deadline fixed at
+		// TarsInvoke entry still holds (monitors and trace validation; the model has no filter step)
+		for _, style := range []string{"prepost", "cf", "mw"} {
+			c = base("sleeping-filter-silent-"+style, "accept", []c09Act{{"reply", 0}, {"none", 0}})
+			c.TimeoutMs = pick(300, 400)
+			c.FilterSleepMs = r10(c.TimeoutMs * pick(50, 60, 75) / 100)
+			c.Filter = style
+			c.Calls = 2
+			c.Predict = false
+			if rng.Intn(2) == 0 {
+				c.CtxMs, c.TimeoutMs = c.TimeoutMs, 900
+			}
+			cs = append(cs, c)
+		}
+		c = base("sleeping-filter-slow-reply", "accept", nil)
+		c.TimeoutMs = pick(300, 400)
+		c.FilterSleepMs = r10(c.TimeoutMs / 2)
+		c.Acts = []c09Act{{"reply", 0}, {"reply", r10(c.TimeoutMs / 4)}, {"reply", r10(c.TimeoutMs * 3 / 4)}}
+		c.Filter = []string{"prepost", "cf", "mw"}[rng.Intn(3)]
+		c.Calls = 3
+		c.Predict = false
+		cs = append(cs, c)
+		c = base("sleeping-filter-silent-concurrent", "accept", []c09Act{{Do: "none"}})
+		c.TimeoutMs = pick(300, 400)
+		c.FilterSleepMs = r10(c.TimeoutMs * 6 / 10)
+		c.Filter = []string{"prepost", "cf", "mw"}[rng.Intn(3)]
+		c.Callers = pick(2, 8)
+		c.Predict = false
+		if rng.Intn(2) == 0 {
+			c.PerCallMs, c.TimeoutMs = c.TimeoutMs, 900
+		}
+		cs = append(cs, c)
+		// ---- read timeout 0 (no read deadline) and other tiny values: rtimer.After panics inside Recv for a reply whose caller
+		// waits (recovered: the reply is lost); later calls must still return by their deadlines and leave nothing behind
+		for _, ns := range []int{0, pick(1, 10, 19)} {
+			c = base("tiny-read-timeout", "accept", rep(pick(0, 20)))
+			c.ReadMs, c.ReadNs = 0, ns
+			c.Calls = 3
+			c.GapMs = 10
+			c.Predict = false
+			cs = append(cs, c)
+		}
+		c = base("tiny-read-timeout-concurrent", "accept", rep(pick(0, 20)))
+		c.ReadMs, c.ReadNs = 0, pick(0, 10)
+		c.Callers = pick(2, 8)
+		c.Calls = 2
+		c.Predict = false
 		cs = append(cs, c)
 		// datagram transport: no connection to establish or lose
 		c = base("udp-mixed-sequential", "udp", nil)
